@@ -216,13 +216,15 @@ def remapSpan (s e : Int) (rev : Bool) (m : FM) : Except FErr (List FSp) :=
     let mapLength := lo + ls.length
     let zlo := max 0 s
     let zhi := min mapLength e
-    let first : Int := (bisectRight offs zlo : Int) - 1
-    -- bisect_left(offsets, zhi, lo=first): a negative `lo` raises ValueError
-    if first < 0 then .error .valueError else
-    let firstN := first.toNat
-    let last : Int := (bisectLeft (offs.drop firstN) zhi + firstN : Nat) - 1
-    let result := (m.spans.take (last + 1).toNat).drop firstN
     let trimmed : Except FErr (List FSp) :=
+      -- `self` lies entirely outside the map
+      if zlo > zhi then .ok [] else
+      let first : Int := (bisectRight offs zlo : Int) - 1
+      -- bisect_left(offsets, zhi, lo=first): a negative `lo` raises ValueError
+      if first < 0 then .error .valueError else
+      let firstN := first.toNat
+      let last : Int := (bisectLeft (offs.drop firstN) zhi + firstN : Nat) - 1
+      let result := (m.spans.take (last + 1).toNat).drop firstN
       match result with
       | [] => .ok []
       | _ =>
@@ -246,8 +248,8 @@ def remapSpan (s e : Int) (rev : Bool) (m : FM) : Except FErr (List FSp) :=
     match trimmed with
     | .error er => .error er
     | .ok res =>
-      let res := if s < 0 then FSp.lost (-s) :: res else res
-      let res := if e > mapLength then res ++ [FSp.lost (e - mapLength)] else res
+      let res := if s < 0 then FSp.lost (min e 0 - s) :: res else res
+      let res := if e > mapLength then res ++ [FSp.lost (e - max s mapLength)] else res
       .ok (if rev then (res.map FSp.reversed).reverse else res)
   | _, _ => .error .indexError
 
